@@ -109,6 +109,10 @@ impl DcpsDomainParticipant {
                 let Some(subscriber) = subscriber else {
                     return Err(DdsError::AlreadyDeleted);
                 };
+                // Reading from any reader of the subscriber resets its DATA_ON_READERS status
+                subscriber
+                    .status_condition
+                    .remove_communication_state(StatusKind::DataOnReaders);
                 let Some(data_reader) = subscriber
                     .data_reader_list
                     .iter_mut()
@@ -169,6 +173,9 @@ impl DcpsDomainParticipant {
         else {
             return Err(DdsError::AlreadyDeleted);
         };
+        subscriber
+            .status_condition
+            .remove_communication_state(StatusKind::DataOnReaders);
         let Some(data_reader) = subscriber
             .data_reader_list
             .iter_mut()
@@ -231,6 +238,9 @@ impl DcpsDomainParticipant {
         else {
             return Err(DdsError::AlreadyDeleted);
         };
+        subscriber
+            .status_condition
+            .remove_communication_state(StatusKind::DataOnReaders);
         let Some(data_reader) = subscriber
             .data_reader_list
             .iter_mut()
@@ -293,6 +303,9 @@ impl DcpsDomainParticipant {
         else {
             return Err(DdsError::AlreadyDeleted);
         };
+        subscriber
+            .status_condition
+            .remove_communication_state(StatusKind::DataOnReaders);
         let Some(data_reader) = subscriber
             .data_reader_list
             .iter_mut()
